@@ -25,7 +25,7 @@ META = {
     'outside': ['single-row / single-column rasters (the function derives the cell size from the coordinate span and divides by zero there)', 'fully symbolic whole-function runs beyond 2x2 (z3 unknown on 2x3 / 3x2; there the claim is the sparse whole-function jobs plus the event-generation and status-structure harnesses)',
                 'exact ties: bearings / gradients closer than 1e-9 to a span end or to the query gradient', 'NaN elevations', 'GPU (RTX) path', 'float rounding of gradients'],
     'assumptions': ['gradients are atan values, i.e. in (-pi/2, pi/2) (status-structure harness)', 'elevations finite'],
-    'budget_s': {'quick': 280, 'thorough': 2400},
+    'budget_s': {'quick': 420, 'thorough': 2400},
 }
 
 KEYS = [1.0, 2.0, 4.0, 5.0, 8.0]
